@@ -118,8 +118,10 @@ pub struct JobResult<R> {
     pub wall: Duration,
     /// Thread census at the moment of the verdict (only for Deadlocked / TimedOut).
     pub census: Vec<ThreadSnap>,
-    /// Engine threads that had not ended `grace` after every host returned.
+    /// Engine threads that had not ended after every host returned.
     pub leaked_threads: Vec<ThreadSnap>,
+    /// True if the leak is a stable fact (all of them parked, no engine event across 8 snapshots).
+    pub leak_certified: bool,
 }
 
 impl<R> JobResult<R> {
@@ -230,6 +232,7 @@ where
     let mut end = JobEnd::Returned;
     let mut census = Vec::new();
     let mut leaked = Vec::new();
+    let mut leak_certified = false;
 
     std::thread::scope(|scope| {
         let mut handles = Vec::new();
@@ -325,8 +328,13 @@ where
         for h in handles {
             let _ = h.join();
         }
-        // every host returned: all engine threads must end shortly
-        let deadline = Instant::now() + Duration::from_secs(5);
+        // every host returned: all engine threads must end. "Still alive" is only a fact about
+        // the engine when it is stable: either every thread ends, or the remaining ones are all
+        // parked and no engine event occurs across several snapshots (certificate), or the grace
+        // period expires while things still move (then nothing is concluded).
+        let deadline = Instant::now() + Duration::from_secs(90);
+        let mut last_events = o.events.load(Ordering::SeqCst);
+        let mut quiet = 0u32;
         loop {
             let snap = o.snapshot();
             let live: Vec<_> = snap
@@ -336,11 +344,24 @@ where
             if live.is_empty() {
                 break;
             }
+            let ev = o.events.load(Ordering::SeqCst);
+            if ev == last_events && all_parked(&live) {
+                quiet += 1;
+            } else {
+                quiet = 0;
+                last_events = ev;
+            }
+            if quiet >= 8 {
+                // 8 consecutive quiet snapshots, 0.5 s apart
+                leaked = live;
+                leak_certified = true;
+                break;
+            }
             if Instant::now() > deadline {
                 leaked = live;
                 break;
             }
-            std::thread::sleep(Duration::from_millis(5));
+            std::thread::sleep(Duration::from_millis(if quiet > 0 { 500 } else { 5 }));
         }
     });
 
@@ -352,6 +373,7 @@ where
         wall: started.elapsed(),
         census,
         leaked_threads: leaked,
+        leak_certified,
     }
 }
 
